@@ -32,6 +32,19 @@ def configs(tier):
     C["switchgdd"] = s
     C["water_table"] = A.to_spec(A._b(crop="maize.2", win="w1s", word="dry", gw="0.8", soil="ClayLoam"))
     C["series_table"] = A.to_spec(A._b(crop="maize.2", win="w1", word="dry", gw="rising_v", soil="ClayLoam", dz="deep30"))
+    # user lists NOT in chronological order (observations / schedule rows): an initialisation that normalises them may not write half of
+    # the result back onto the user's object
+    for nm, g in (("unsorted_table_v", {"method": "Variable", "series": [[30, 0.5], [0, 2.4], [9999, 0.5]]}),
+                  ("unsorted_table_c", {"method": "Constant", "series": [[22, 0.6], [0, 2.2], [12, 1.2]]})):
+        s = A.to_spec(A._b(crop="maize.2", win="w1", word="dry", soil="ClayLoam", dz="deep30"))
+        s["gw"] = A.resolve_gw(g, s["start"])
+        C[nm] = s
+    s = A.to_spec(A._b(crop="maize.2", win="w2", word="dry", irr="sched", iwc="WP"))
+    s["irr"]["schedule_style"] = "reversed"
+    C["schedule_latest_first"] = s
+    s = A.to_spec(A._b(crop="maize.2", win="w2", word="dry", irr="sched", iwc="WP"))
+    s["irr"]["schedule_style"] = "object_ts"
+    C["schedule_object_columns"] = s
     s = A.to_spec(A._b(crop="maize.2", win="w1", word="showers"))
     s["soil"]["kw"] = {"adj_rew": 0, "calc_cn": 1}
     C["adj_rew_calc_cn"] = s
